@@ -9,6 +9,8 @@ arbitrary state `s`; `life c now ops` = the same from a freshly constructed `Irc
 import LimnoriaModel.C19.Fresh
 import LimnoriaModel.C19.Reconnect
 import LimnoriaModel.C19.Reentrant
+import LimnoriaModel.C19.Ping
+import LimnoriaModel.C19.Threads
 namespace C19
 open Py List
 
@@ -558,5 +560,42 @@ theorem delivered_is_labeled (s : Irc) (m : Msg) (hl : s.labelAcked = true) (hf 
     · simp only [he, hm, if_true]; exact ⟨h3, h2⟩
     · simp only [he, hm, if_true, if_false]; exact ⟨h3, h2⟩
   · simp only [he, if_false]; exact ⟨h3, h2⟩
+
+/-! ## the ping machinery over histories -/
+
+/-- **One `takeMsg`, however many rounds**: it leaves the ping state alone; or it emits exactly one
+PING, at a moment (`PingDue`) when both queues are empty, the MOTD is over, pings are on, the
+interval has elapsed since the last one and none is outstanding — and marks it outstanding; or,
+with a PING outstanding for a whole interval, it makes the driver reconnect exactly once and the
+PING is forgotten. -/
+theorem take_ping_cases (s : Irc) : PingOut s (takeMsg s) := takeMsg_ping s
+
+/-- a PONG clears the outstanding PING -/
+theorem pong_clears (s : Irc) : (step s .pong).1.outstandingPing = false := rfl
+
+/-- **Over a whole life of the bot** (callers queue objects of their own): every reconnect by ping
+time-out and the PING outstanding at the end, if any, each have a PING of their own
+(`reconnects + outstanding ≤ pings`: never two time-outs for one PING, never a time-out without a
+PING); and a new PING is only emitted once the previous one was answered, timed out or reset away
+(`pings ≤ reconnects + PONGs and resets + outstanding`): at most one PING is outstanding at any time. -/
+theorem ping_history (c : Cfg) (now : Nat) (ops : List Op) (h : QExt ops) :
+    reconnOf (life c now ops).2 + b2n (life c now ops).1.outstandingPing ≤ pingsOf (life c now ops).2 ∧
+    pingsOf (life c now ops).2 ≤
+      reconnOf (life c now ops).2 + clearsOf ops + b2n (life c now ops).1.outstandingPing := by
+  have hq := queueConnectMessages_quiet (blank c now)
+  have hb := run_bal ops (init c now).1 h
+  have hi : pingsOf (init c now).2 = 0 ∧ reconnOf (init c now).2 = 0 ∧
+      (init c now).1.outstandingPing = false := by
+    unfold init
+    dsimp only
+    rw [pingsOf_cons, reconnOf_cons, hq.1, hq.2.1, hq.2.2]
+    exact ⟨rfl, rfl, rfl⟩
+  unfold life
+  dsimp only
+  simp only [PingBal, hi.2.2] at hb
+  have hz : b2n false = 0 := rfl
+  rw [hz] at hb
+  rw [pingsOf_append, reconnOf_append, hi.1, hi.2.1]
+  omega
 
 end C19
